@@ -238,13 +238,13 @@ JUNK = b'\x00\x05\x16\x07\x00\x02\x00\x00Mac OS X        \x00\x02'
 
 def rel_forms(rng):
     """image paths as written in <init_from>, with their form label"""
-    x = rng.choice(['t0.png', 't1.png', 'tex.jpg', 'up.png', 'nope.png'])
+    x = rng.choice(['t0.png', 't1.png', 'tex.jpg', 'up.png', 'nope.png', 'T0.png', 'TEX.JPG'])     # (names that differ in case are different names)
     forms = [
         ('dot', './' + x), ('plain', x), ('sub', 'sub/' + rng.choice(['t0.png', 't2.png', 'nope.png'])),
         ('dotsub', './sub/' + rng.choice(['t0.png', 'deep/t3.png'])), ('up', '../' + x), ('upup', '../../' + x),
         ('subup', 'sub/../' + x), ('dotup', './../' + x), ('updown', '../' + rng.choice(DIRS) + '/' + x),
         ('dslash', 'sub//t0.png'), ('dir', rng.choice(['sub', './sub', 'sub/', 'sub/deep', '.', '..'])),
-        ('upupup', '../../../' + x), ('trail', './' + x + '/.'),
+        ('upupup', '../../../' + x), ('trail', './' + x + '/.'), ('case', x.swapcase()), ('casedot', './' + x.upper()),
     ]
     return forms
 
@@ -304,7 +304,7 @@ def gen_layout(rng):
         # auxiliary files around this document (most image paths resolve, some do not)
         for p in docs[entries[-1][1]]:
             tgt = naive_resolve(nm, p)
-            if tgt and rng.random() < 0.8 and not tgt.endswith('nope.png'):
+            if tgt and rng.random() < 0.8 and not tgt.endswith('nope.png') and (tgt == tgt.lower() or rng.random() < 0.5):
                 if any(p.rstrip('/.').endswith(x) for x in ('sub', 'deep')) or p in ('.', '..'):
                     continue
                 add(tgt, blob(('PNG%d:%s' % (len(blobs), tgt)).encode('latin-1')))
@@ -364,7 +364,31 @@ def gen_select_layout(rng, names):
 IGNORES = {'.': None, 'B': ['DaeBrokenRefError'], 'E': ['DaeError'], 'I': ['DaeIncompleteError'],
            'BM': ['DaeBrokenRefError', 'DaeMalformedError']}
 ZIP_SOURCES = ('zbio', 'zpath', 'zfobj')
-DOC_SOURCES = ('path', 'bpath', 'relpath', 'bio', 'fobj')
+# 'biooff': a file object positioned at the first byte of the document, behind something else; 'stream': a file object that cannot seek
+DOC_SOURCES = ('path', 'bpath', 'relpath', 'bio', 'fobj', 'biooff', 'stream')
+
+
+class Stream(io.RawIOBase):
+    """a binary stream as a pipe or a socket gives it: readable, not seekable"""
+
+    def __init__(self, data):
+        self._b = io.BytesIO(data)
+
+    def readable(self):
+        return True
+
+    def seekable(self):
+        return False
+
+    def readinto(self, b):
+        return self._b.readinto(b)
+
+    def seek(self, *a):
+        raise io.UnsupportedOperation('seek')
+
+    def tell(self):
+        raise io.UnsupportedOperation('tell')
+
 
 
 class World(object):
@@ -465,6 +489,11 @@ def real_run(world, run):
                 arg = p
         elif src == 'bio':
             arg = io.BytesIO(world.blobs[world.member[run['doc']]])
+        elif src == 'biooff':
+            arg = io.BytesIO(b'HEADER: 12 bytes\r\n\r\n' + world.blobs[world.member[run['doc']]])
+            arg.seek(20)
+        elif src == 'stream':
+            arg = io.BufferedReader(Stream(world.blobs[world.member[run['doc']]]))
         elif src == 'zbio':
             arg = io.BytesIO(world.zbytes)
         elif src == 'zpath':
